@@ -331,6 +331,13 @@ pub fn run(tier: &str) -> i32 {
         Config { strategy: "s3", partitions: 10, fault: Some(("get", 2, "once")), put_fault_shape: (500, 4) },
         Config { strategy: "s3_patition", partitions: 3, fault: Some(("get", 1, "once")), put_fault_shape: (403, 1) },
         Config { strategy: "s3_patition", partitions: 3, fault: Some(("get", 2, "once")), put_fault_shape: (500, 4) },
+        // download faults that do not go away (round 11): from the 2nd / 3rd object read at a restart on, every read fails
+        // (a thousand in a row: more than all retries of the rest of the run). The objects read before are fine - a start
+        // that goes on with those alone lacks data
+        Config { strategy: "s3_patition", partitions: 3, fault: Some(("get", 2, "once")), put_fault_shape: (403, 1000) },
+        Config { strategy: "s3_patition", partitions: 10, fault: Some(("get", 3, "once")), put_fault_shape: (500, 1000) },
+        Config { strategy: "s3_patition", partitions: 10, fault: Some(("get", 2, "once")), put_fault_shape: (503, 1000) },
+        Config { strategy: "s3", partitions: 10, fault: Some(("get", 2, "once")), put_fault_shape: (403, 1000) },
     ];
     let next = std::sync::atomic::AtomicUsize::new(0);
     let bucket_n = std::sync::atomic::AtomicUsize::new(0);
